@@ -176,7 +176,8 @@ void profile_twin(RunCtx& ctx)
     // unknown templates / processes): the recovered documents and their diagnostics must agree as well
     if (seeded.empty() && rng.chance(0.25)) {
         static const int kinds[] = {MF_DUP_LOC_NAME, MF_DROP_ARG, MF_EXTRA_ARG, MF_UNKNOWN_TEMPLATE, MF_DUP_PROCESS,
-                                    MF_UNKNOWN_PROCESS, MF_DUP_DECL, MF_DUP_PARAM, MF_DUP_TEMPLATE_NAME, MF_EMPTY_TEMPLATE};
+                                    MF_UNKNOWN_PROCESS, MF_DUP_DECL, MF_DUP_PARAM, MF_DUP_TEMPLATE_NAME, MF_EMPTY_TEMPLATE,
+                                    MF_FUNC_NO_RETURN, MF_EXTRA_INITIALISER};
         int f = kinds[rng.below(sizeof kinds / sizeof kinds[0])];
         // two bodies for one dynamic template put namesake locations into one scope: the same ambiguity as below
         bool has_dyn = false;
@@ -545,6 +546,40 @@ void profile_writer(RunCtx& ctx)
         ctx.count("models-accepted");
     }
     do_noise(ctx, rng, step, rng.below(2));
+    if (!iofault && rng.chance(0.3)) {
+        // another client loaded, saved and dropped a different model before (heap addresses are reused afterwards)
+        int st0 = step++, st1 = step++;
+        if (ctx.keep(st0) && ctx.keep(st1)) {
+            GenCfg c2 = draw_cfg(rng);
+            c2.branchpoints = cfg.branchpoints;
+            c2.free_process_params = false;
+            Model m2 = gen_model(rng, c2);
+            XmlKnobs k2 = draw_knobs(rng);
+            Rng r2 = rng.fork();
+            CallSpec lc;
+            lc.entry = E_XML_BUFFER;
+            lc.backend = B_DOC;
+            lc.bytes = render_xml(m2, k2, r2);
+            lc.ceiling = default_ceiling(lc.bytes.size());
+            Session other;
+            ctx.hint = "writer:earlier-session-load";
+            CallResult lr = ctx.call(other, lc, st0);
+            if (ctx.violations)
+                return;
+            if (!lr.threw && other.doc && !other.doc->has_errors()) {
+                CallSpec wc;
+                wc.entry = E_WRITE;
+                wc.bytes = "earlier.xml";
+                wc.ceiling = default_ceiling(lc.bytes.size() * 4 + 20000);
+                ctx.hint = "writer:earlier-session-write";
+                ctx.call(other, wc, st1, false);
+                if (ctx.violations)
+                    return;
+                ctx.count("writer-earlier-sessions");
+            }
+            other.drop();
+        }
+    }
     // family realfile: the output goes to a real file that may already exist (shorter or longer than what will be
     // written); the file system is the one thing here that is not simulated, so the pre-state is planned from the seed
     const bool realfile = ctx.family == "realfile";
